@@ -27,7 +27,7 @@ var triagePanic = map[string]string{
 	"objectCache.processNewSet/panic#0":  "default of the item type switch, exhaustive by C10.R2",
 	"zeroValue/panic#0":                  "default of the basic-kind switch, exhaustive by C01.R1",
 	"zeroValue/panic#1":                  "default of the underlying-kind switch, exhaustive by C01.R1",
-	"copyAST/panic#0":                    "default of the node-kind switch, exhaustive by C15.R1",
+	"copyASTWithOriginals/panic#0":       "default of the node-kind switch, exhaustive by C15.R1",
 }
 
 var triageAccessor = map[string]string{
